@@ -222,6 +222,19 @@ func ceMain(args []string) {
 			st.hit("signer-installed-by-rotate")
 		}
 		e := &eventlogger.Event{Type: eventlogger.EventType(ty), CreatedAt: created, Formatted: map[string][]byte{}, Payload: payload}
+		// a quarter of the events arrive already carrying a document under this node's format key (another
+		// producer's formatter node in the pipeline or in another pipeline of the type, or the caller): this
+		// node stores ITS document, signed by ITS signer
+		var stale []byte
+		if p.chance(1, 4) {
+			stale = []byte("{\"id\":\"other-producer\",\"source\":\"https://other.example/\",\"specversion\":\"1.0\",\"type\":\"other\"}\n")
+			if fmK == "t" {
+				e.FormattedAs(string(cloudevents.FormatText), stale)
+			} else {
+				e.FormattedAs(string(cloudevents.FormatJSON), stale)
+			}
+			st.hit("prefilled-format-entry")
+		}
 		got, err := ff.Process(ctx, e)
 		fname := string(cloudevents.FormatJSON)
 		fcode := 2
@@ -229,6 +242,12 @@ func ceMain(args []string) {
 			fname, fcode = string(cloudevents.FormatText), 3
 		}
 		stored, has := e.Format(fname)
+		if stale != nil && err == nil && string(stored) == string(stale) {
+			oracle("C18 the event already carried a document of another producer under the format key %s: Process returned no error and left it there (the node's own source, schema and signature are not in what is stored)", fname)
+		}
+		if stale != nil && err != nil && has && string(stored) == string(stale) {
+			has = false // nothing of this node's was stored
+		}
 		// the document stored for an earlier event does not change when later events are formatted
 		for _, hd := range ceHeld {
 			if got2, ok2 := hd.e.Format(hd.key); !ok2 || string(got2) != string(hd.want) {
@@ -389,6 +408,33 @@ func ceMain(args []string) {
 		}
 		op := strings.TrimSpace(fmt.Sprintf("ce 0 %s %s %s %d %s %s %s %s %s %s %s %s", srcTok, schTok, fmK, sg, stt, hx([]byte(ty)), hx(ttok), idTok, fresh, pred, dataKind, strings.Join(toks, " ")))
 		o.emit(op, res)
+		if err == nil && got != nil && fcode == 3 && sg != 2 {
+			// the text format: json.Compact of the stored (indented) document against the model's compact, and
+			// the consumer's check on it
+			var cb bytes.Buffer
+			if json.Compact(&cb, stored) == nil {
+				st.hit("compact")
+				st.Ops++
+				o.emit("compact "+hx(stored), hx(cb.Bytes()))
+			}
+			doc := stored
+			if p.chance(1, 3) && len(doc) > 4 && bytes.Contains(doc, []byte(`"serialized_hmac": `)) {
+				doc = append([]byte(nil), stored...)
+				i := len(doc) - 5 - p.intn(2) // one of the last two characters of the signature: ...X"\n}\n
+				if doc[i] == 'X' {
+					doc[i] = 'Y'
+				} else {
+					doc[i] = 'X'
+				}
+			}
+			verdict := ceVerify(doc)
+			st.hit("verifytext:" + verdict)
+			st.Ops++
+			o.emit("verifytext "+hx(doc), verdict)
+			if string(doc) == string(stored) && (verdict == "verified") != (sg == 1 && listed) {
+				oracle("C18 a consumer's verification of the stored cloudevents-text document gives %s (signer=%d, type listed=%v)", verdict, sg, listed)
+			}
+		}
 		if err == nil && got != nil && fcode == 2 && sg != 2 {
 			// what a consumer does with a cloudevents-json document: the model's verifier (M8v, the subject of
 			// C18.signed_verifies) against this one, on the stored document and on one whose signature was altered
